@@ -51,4 +51,14 @@ LEVELS = {
         "text": "Shape/purity/prefix/rounding are exact checks over the grid; normality and independence are calibrated z/KS tests on pooled draws.",
         "note": "Statistical thresholds sized for < 1e-5 false-alarm probability per run.",
     },
+    "C15": {
+        "technique": "runtime monitoring: reference-model oracle (closed-form f64 densities/gradients, quadrature) with sensitivity-derived tolerances + calibrated noise tests",
+        "text": "Every evaluated density/gradient of the built-in distributions is compared with closed forms on generated parameters, points, batch sizes and type/backend combinations; the proposal density is additionally integrated numerically. Exploration of generated inputs.",
+        "note": "Closed forms trusted after their own finite-difference guard; f32-level accuracy demanded of tensor-based targets.",
+    },
+    "C17": {
+        "technique": "runtime monitoring with I/O fault injection: write with the library, read back with the standard readers, bitwise cell comparison; unwritable paths incl. /dev/full",
+        "text": "Round-trip oracle over shapes (exhaustive in the thorough tier), element types and hostile values for all five entry points; injected write faults must surface as Err.",
+        "note": "Readers of the same crate versions are trusted; fault set limited to what root cannot write.",
+    },
 }
